@@ -107,6 +107,7 @@ package ion
 
 //@ func (*bitstream).readVarUintLen
 //@ unroll loop0 10
+//@ split returns
 //@ requires bsStream(b) && bsPos(b)
 //@ requires bsRoom(b, max) || bsRoom(b, 10)
 //@ modifies b.pos, vcStreamOf(b.in).cur
